@@ -308,8 +308,10 @@ where
     }
 
     fn on_follows_from(&self, id: &Id, follows_id: &Id, ctx: Context<'_, S>) {
-        let span = ctx.span(id).unwrap();
-        let follows = ctx.span(follows_id).unwrap();
+        // Either of the spans may be already closed; `follows_from()` accepts arbitrary IDs.
+        let (Some(span), Some(follows)) = (ctx.span(id), ctx.span(follows_id)) else {
+            return;
+        };
         if let Some(id) = span.extensions().get::<CapturedSpanId>().copied() {
             if let Some(follows_id) = follows.extensions().get::<CapturedSpanId>().copied() {
                 self.lock().on_follows_from(id, follows_id);
